@@ -232,7 +232,7 @@ func runC08(c *Ctx) {
 	lossyConv(c, "C08")
 
 	// ---------------------------------------------------------------------------------------------
-	c.R.Rule("utf8", "the quoting sink (writeQuotedString) reaches a UTF-8 validity operation (utf8.RuneError comparison, utf8.Valid*, strings.ToValidUTF8): necessary for 'valid UTF-8 for every string'", 1)
+	c.R.Rule("utf8", "the quoting sink (writeQuotedString) reaches a UTF-8 validity operation (utf8.RuneError comparison, utf8.Valid*, strings.ToValidUTF8), and its replacement branch depends on the decoded width so that an encoded U+FFFD is preserved", 2)
 	if quote != nil {
 		ok := false
 		for _, fn := range an.WithClosures(quote) {
@@ -257,6 +257,53 @@ func runC08(c *Ctx) {
 			}
 		}
 		c.R.Check(ok, "writeQuotedString/utf8", c.pos(quote.Pos()), "replaces invalid sequences", "the quoting sink never tests UTF-8 validity: invalid bytes in a string are copied verbatim and the response is not valid UTF-8 JSON")
+		// the replacement branch must distinguish a malformed byte (decoded width 1) from a correctly encoded U+FFFD (width 3):
+		// everything that is control-dependent on `rune == utf8.RuneError` and writes or advances is also dependent on a width test
+		bad := ""
+		n := 0
+		for _, b := range quote.Blocks {
+			for _, in := range b.Instrs {
+				call, isCall := in.(*ssa.Call)
+				_, isStore := in.(*ssa.Store)
+				if isCall {
+					// only output operations count, not the width computation itself
+					nm := an.CalleeOf(call).FullName()
+					if !(nm == "io.WriteString" || strings.HasPrefix(nm, "fmt.Fprint") || (call.Call.IsInvoke() && call.Call.Method.Name() == "Write")) {
+						continue
+					}
+				}
+				if !isCall && !isStore {
+					continue
+				}
+				onRuneError, onWidth := false, false
+				for _, f := range an.Facts(in) {
+					if f.Op == token.EQL {
+						for _, v := range []ssa.Value{f.X, f.Y} {
+							if k, isC := an.ConstInt(v); isC && k == 0xFFFD {
+								onRuneError = true
+							}
+						}
+					}
+					for _, v := range []ssa.Value{f.X, f.Y} {
+						if ex, isE := v.(*ssa.Extract); isE && ex.Index == 1 {
+							if cc, isC := ex.Tuple.(*ssa.Call); isC && strings.HasPrefix(an.CalleeOf(cc).FullName(), "unicode/utf8.DecodeRune") {
+								onWidth = true
+							}
+						}
+						if cc, isC := v.(*ssa.Call); isC && (an.CalleeOf(cc).FullName() == "unicode/utf8.RuneLen" || strings.HasPrefix(an.CalleeOf(cc).FullName(), "unicode/utf8.Valid")) {
+							onWidth = true
+						}
+					}
+				}
+				if onRuneError {
+					n++
+					if !onWidth {
+						bad = "the instruction at " + c.ipos(in) + " runs for every rune equal to U+FFFD without testing the decoded width: a correctly encoded U+FFFD in the input is treated as one bad byte and its remaining bytes are emitted raw (invalid UTF-8)"
+					}
+				}
+			}
+		}
+		c.R.Check(bad == "" && n > 0, "writeQuotedString/utf8-width", c.pos(quote.Pos()), sprintf("%d instructions of the replacement branch, all behind a width test", n), bad)
 	}
 }
 
